@@ -115,6 +115,76 @@ def _calls_to(eng, fn: FunctionInfo, target: FunctionInfo) -> List[CallSite]:
     return [s for s in eng.cg.calls_in(fn) if isinstance(s.node, ast.Call) and target in s.callees]
 
 
+def _fold_check_header(ctx, fn: FunctionInfo):
+    """Fold a base check_header on probe registries / headers with the three shared checks intercepted and report what they were handed:
+    a list of problems (empty: the registry handed to the unknown-parameter check is this instance's table plus the table of the model the
+    header names, nothing is mutated, the algorithm's own parameters are validated with the caller's check_more), or None when the
+    body does not fold (the shape clauses decide then)."""
+    from ..fold import FuncVal, ExtVal, FoldRaise, is_unknown
+    eng = ctx.eng
+    F = eng.folder
+    cls = fn.cls
+    if cls is None:
+        return None
+    jwe = cls.name == "JWERegistry"
+    algs = ["ECDH-ES", "PBES2-HS256+A128KW", "dir"] if jwe else ["HS256"]
+    problems: List[str] = []
+    F.start_trace()
+    try:
+        for strict in (True, False):
+            insts = []
+            for tag in ("x-jv-a", "x-jv-b"):
+                insts.append((tag, F.instantiate(cls, [], {"header_registry": {tag: ExtVal("PROBE")}, "algorithms": list(algs), "strict_check_header": strict})))
+            for tag, inst in insts:
+                own = inst.attrs.get("header_registry")
+                if not isinstance(own, dict) or tag not in own:
+                    return None
+                for alg in algs:
+                    for check_more in ((True, False) if jwe else (None,)):
+                        before = sorted(own)
+                        got = []
+                        cap = lambda n: (lambda b: (got.append((n, b)), None)[1])
+                        F.intercepts = {"registry:check_crit_header": cap("crit"), "registry:validate_registry_header": cap("vrh"), "registry:check_supported_header": cap("csh")}
+                        hdr = {"alg": alg, "enc": "A128GCM"} if jwe else {"alg": alg}
+                        try:
+                            F.call(FuncVal(fn, None, inst), [hdr] + ([check_more] if jwe else []), {})
+                        except FoldRaise:
+                            return None
+                        finally:
+                            F.intercepts = {}
+                        model = F.call(FuncVal(cls.lookup("get_alg"), None, inst), [alg], {})
+                        more = F.get_attr(model, "more_header_registry") if jwe else None
+                        if jwe and (is_unknown(more) or not isinstance(more, (dict, type(None)))):
+                            return None
+                        more = more or {}
+                        where = f"strict={strict}, alg={alg}" + (f", check_more={check_more}" if jwe else "")
+                        if sorted(own) != before:
+                            problems.append(f"the instance header registry is changed by check_header ({where}): {sorted(set(own) ^ set(before))}")
+                        csh = [b for n, b in got if n == "csh"]
+                        if any(is_unknown(v) for n, b in got for v in b.values()):
+                            return None
+                        if strict:
+                            for b in csh:
+                                r = b.get("registry")
+                                if not isinstance(r, dict):
+                                    return None
+                                if set(r) != set(before) | set(more):
+                                    problems.append(f"check_supported_header is given {sorted(r)} ({where}); this instance's table plus the model's own is {sorted(set(before) | set(more))}")
+                                if b.get("header") is not hdr:
+                                    problems.append(f"check_supported_header is not given the header ({where})")
+                        if jwe and more:
+                            mv = [b for n, b in got if n == "vrh" and isinstance(b.get("registry"), dict) and set(b["registry"]) == set(more)]
+                            if not mv or any(b.get("check_required") is not check_more or b.get("header") is not hdr for b in mv):
+                                problems.append(f"the model's own parameters are not validated with the caller's check_more ({where})")
+    except AnalysisError:
+        return None
+    finally:
+        sided = F.one_sided(ignore=(".get_alg", ".__init__"))
+    if sided:
+        return None  # a test decided the same way on every probe: the probes are a sample, the shape clauses decide
+    return problems
+
+
 def r15_2(ctx) -> None:
     eng = ctx.eng
     P = eng.prog
@@ -159,8 +229,13 @@ def r15_2(ctx) -> None:
             okc = cfg.must_pass(cfg.entry, cfg.exit, c, edge_filter=ef)
         ctx.check(okc, "R15.2", fn, fn.node, f"{fn.short} :: unknown parameters", "with strict_check_header on, check_header can complete without "
                   "check_supported_header (unregistered parameters accepted)", "check_supported_header on every strict path", construct="strict unknown-parameter check")
+        folded = _fold_check_header(ctx, fn)
+        if folded is not None:
+            ctx.check(not folded, "R15.2", fn, fn.node, f"{fn.short} :: registries handed to the shared checks (folded on probes)",
+                      ("check_supported_header is not given the instance header registry: " if folded and "check_supported_header" in folded[0] else "") + (folded[0] if folded else ""),
+                      "instance registry (+ the named model's own table); nothing mutated; check_more handed on", construct="registry of check_supported_header")
         # the registry given to check_supported_header contains the instance registry
-        for s in _calls_to(eng, fn, csh):
+        for s in _calls_to(eng, fn, csh) if folded is None else []:
             r0 = s.node.args[0]
             txt = norm(r0)
             good = txt == f"{sn}.header_registry"
@@ -178,7 +253,7 @@ def r15_2(ctx) -> None:
             ctx.check(good, "R15.2", fn, s.node, f"{fn.short} :: {norm(s.node)[:50]}", "check_supported_header is not given the instance header registry",
                       "registry derived from self.header_registry", construct="registry of check_supported_header")
         # JWE: algorithm specific parameters
-        if fn.cls is not None and fn.cls.name == "JWERegistry":
+        if fn.cls is not None and fn.cls.name == "JWERegistry" and folded is None:
             okd = alg_specific_validation_ok(eng, fn, vrh)
             ctx.check(okd, "R15.2", fn, fn.node, f"{fn.short} :: algorithm-specific parameters", "algorithm-specific header parameters are not validated "
                       "with the caller's check_more flag", "validate_registry_header(alg.more_header_registry, header, check_more) whenever present",
@@ -582,6 +657,51 @@ def _falls_back(cfg: CFG, start: CNode, loops: List[CNode]) -> bool:
 
 
 # ----------------------------------------------------------------------------------------------- R15.5
+def _fold_registry_merge(ctx, cls, default_table):
+    """Fold the constructor on probes: the instance table is a fresh dict holding the defaults overlaid with the caller's entries; neither
+    the default table nor the caller's dict is aliased or changed.  None when the constructor does not fold."""
+    from ..fold import ExtVal, FoldRaise, is_unknown
+    F = ctx.eng.folder
+    if not isinstance(default_table, dict):
+        return None
+    snap = dict(default_table)
+    problems: List[str] = []
+    F.start_trace()
+    try:
+        probe = {"x-jv-probe": ExtVal("PROBE"), "kid": ExtVal("OVERRIDE")}
+        psnap = dict(probe)
+        a = F.instantiate(cls, [], {"header_registry": probe})
+        b = F.instantiate(cls, [], {})
+        c = F.instantiate(cls, [], {"header_registry": {"x-jv-other": ExtVal("PROBE2")}})
+    except (FoldRaise, AnalysisError):
+        F.one_sided()
+        return None
+    if F.one_sided():
+        return None
+    ha, hb, hc = (x.attrs.get("header_registry") if hasattr(x, "attrs") else None for x in (a, b, c))
+    if not all(isinstance(h, dict) for h in (ha, hb, hc)) or any(is_unknown(k) for h in (ha, hb, hc) for k in h):
+        default_table.clear()
+        default_table.update(snap)
+        return None
+    if dict(default_table) != snap:
+        problems.append(f"constructing a registry changes the shared default table (now holds {sorted(set(default_table) ^ set(snap))} in addition)")
+        default_table.clear()
+        default_table.update(snap)
+    if ha is default_table or hb is default_table or ha is hb or hb is hc:
+        problems.append("the instance table is the shared default table itself, not a copy")
+    if ha is probe or probe != psnap:
+        problems.append("the caller's dict is used / changed in place")
+    want = dict(snap)
+    want.update(psnap)
+    if not problems and (set(ha) != set(want) or ha.get("kid") is not psnap["kid"] or ha.get("x-jv-probe") is not psnap["x-jv-probe"]):
+        problems.append(f"with a caller table the instance table holds {sorted(set(ha) ^ set(want))} differently / the caller's entry does not win")
+    if not problems and (set(hb) != set(snap) or any(hb[k] is not snap[k] for k in snap)):
+        problems.append("without a caller table the instance table is not the default table's content")
+    if not problems and "x-jv-probe" in hc:
+        problems.append("entries registered for one instance show up in another")
+    return problems
+
+
 def r15_5(ctx) -> None:
     eng = ctx.eng
     P = eng.prog
@@ -589,6 +709,12 @@ def r15_5(ctx) -> None:
         init = P.cls(rname).lookup("__init__")
         if init is None:
             raise AnalysisError(f"{rname}.__init__ vanished")
+        table = eng.folder.class_attr(P.cls(rname), "default_header_registry") if default.startswith("self.") else eng.folder.module_value(P.cls(rname).module, default)
+        folded = _fold_registry_merge(ctx, P.cls(rname), table)
+        if folded is not None:
+            ctx.check(not folded, "R15.5", init, init.node, f"{init.short} (folded on probes)", "the caller's header registry is not merged into a fresh per-instance copy of the default table"
+                      + (": " + folded[0] if folded else ""), "fresh dict = defaults overlaid with the caller's table", construct="registry merge")
+            continue
         cfg = cfg_of(init)
         sn = init.self_name
         upd_def = upd_caller = None
